@@ -9,6 +9,7 @@ from . import session, explore
 
 
 def main():
+    sys.setrecursionlimit(20000)
     ap = argparse.ArgumentParser()
     ap.add_argument('prop')
     ap.add_argument('rest', nargs='*')
